@@ -370,6 +370,9 @@ CheckCb(tk, e, tk2) ==
            "C08", "a task fired whose origin is not the active state with an outstanding success, or past a task of another origin")
     \cup V(step /\ HasHead /\ ~IsPlanCb(e.m) => \A q \in 1 .. Len(pos) : pb[pos[q]][1] = pb[pos[q]][2] => \A z \in 1 .. Len(pos) : pos[z] <= pos[q],
            "C08", "a success report fired further tasks after a cyclic task had consumed it")
+    \cup V(step /\ HasHead /\ rstart /\ proc /\ tk2.fired # <<>> /\ e.pend[2] = Last(tk2.fired)[2] /\ e.pend[3] = Last(tk2.fired)[3]
+             => e.pend[1] = Last(tk2.fired)[1],
+           "C08", "the transition issued by a task does not name the task's origin as requester")
     \cup V(step /\ HasHead /\ rstart /\ proc /\ pos = <<>> /\ ~(e.pend[1] = tk.lastreq[1] /\ e.pend[2] = tk.lastreq[2])
              => ~\E q \in 1 .. Len(pb) : pb[q] = e.pend /\ pb[q][1] = a0,
            "C08", "a task issued its transition but was not removed from the plan")
@@ -468,6 +471,7 @@ CheckRet(tk, e, tk2) ==
     \cup V(tk.op \in PassiveOps => tk.life = <<>> /\ e.act = a0, "C02", "a request changed the active state at the moment it was made")
     \* ---- C03 / C04
     \cup V(proc /\ tk2.lastreq # NoT => tk2.rounds >= L \/ IsDup(sv, tk2.lastreq), "C03", "a request made during processing was neither evaluated by a fresh round of guards nor left for the next processing point")
+    \cup V(proc /\ tk2.lastreq # NoT => tk2.rounds >= L \/ IsDup(sv, tk2.lastreq), "C02", "a request that no guard cancelled was dropped instead of being processed")
     \cup V(proc \/ actv => e.act # NONE /\ e.ia = <<e.act>>, "C04", "processing did not end with exactly one active state")
     \cup V(proc => e.act = a0 \/ \E t \in tk2.passed : t[2] = e.act, "C04", "the state active after processing is not among the requests that passed their guards")
     \cup V(actv => e.act = 0 \/ \E t \in tk2.passed : t # NoT /\ t[2] = e.act, "C04", "the state active after activation is neither the initial state nor a redirect that passed its guards")
@@ -488,6 +492,8 @@ CheckOther(tk, e, tk2) ==
     THEN   V0(e.ids[1] = NONE /\ \A i \in States : e.ids[i + 2] = i, "C14", "stateId<T>() is not the zero-based position of T in the declaration (or the root head has a valid id)")
       \cup V0(~HasSerial \/ (e.serbits = 1 + WidthBits /\ 2 * (N - 1) + 1 < Pow2(e.serbits)), "C12", "the serial buffer capacity does not suffice for the state count")
       \cup V(~tk.incall, "C04", "an execution ended inside a call that never returned")
+      \cup V0(e.Lact = L, "C04", "the machine was instantiated with a substitution limit other than the configured one")
+      \cup V0(e.capact = Cap, "C10", "the machine was instantiated with a task capacity other than the configured one")
     ELSE IF e.e \in {"crash", "truncated", "garbled"}
     THEN V0(FALSE, "C04", "the call did not return (crash, hang or runaway)")
       \cup V0(~(HasPay /\ tk.incall /\ (tk.lastreq[3] # 0 \/ tk.rpend[3] # 0 \/ tk.surv[3] # 0 \/ tk.opp # 0)), "C07", "crash while a payload-carrying transition was in flight")
